@@ -123,11 +123,14 @@ def code_for_string_token(name, value, location):
     """
     assert name is not None
     assert value is not None
-    assert len(value) >= 2
-    left_quote = value[0]
-    right_quote = value[-1]
-    assert left_quote in "\"'", "left_quote=%r" % left_quote
-    assert right_quote in "\"'", "right_quote=%r" % right_quote
+    if value[:1] in ("u", "U"):
+        # Legacy spelling of unicode texts, for example ``u"\u00dc"``.
+        value = value[1:]
+    if (len(value) < 2) or (value[0] not in "\"'") or (value[-1] != value[0]):
+        raise errors.InterfaceError(
+            "text for %s must be a single character between quotes but is: %s" % (name, _compat.text_repr(value)),
+            location,
+        )
 
     value_without_quotes = value[1:-1]
     if len(value_without_quotes) != 1:
